@@ -605,7 +605,7 @@ const ruleCommon = "rapid: call chain of 0-12 links drawn from 21 link kinds (de
 
 var traceFacet = harness.Register(&harness.Facet[m19.Case]{
 	Name:  "trace",
-	Rule:  ruleCommon + "This facet: every run-time raising construct (14 kinds, 166 variants), ASCII source with LF.",
+	Rule:  ruleCommon + "This facet: every run-time raising construct (14 kinds, 165 variants), ASCII source with LF.",
 	Quick: 1800, Thorough: 30000,
 	Gen:   func(t *rapid.T) m19.Case { return genCase(t, "trace") },
 	Check: checkCase,
@@ -614,7 +614,7 @@ var traceFacet = harness.Register(&harness.Facet[m19.Case]{
 var syntaxFacet = harness.Register(&harness.Facet[m19.Case]{
 	Name:  "syntax",
 	Rule:  ruleCommon + "This facet: the construct is one of 20 injected syntax errors (unterminated string/regexp, unexpected token, juxtaposed tokens, illegal character, illegal break/continue/return, bad regexp, unclosed block); half of the cases put it into eval code (SyntaxError with trace, message carries the position), otherwise the program itself fails: parser.ErrorList[0].Position, the error text, and eval of the same text must name the offending token's line and column. non-trivial for parse errors = token not in line 1 / column 1.",
-	Quick: 700, Thorough: 12000,
+	Quick: 700, Thorough: 10000,
 	Gen:   func(t *rapid.T) m19.Case { return genCase(t, "syntax") },
 	Check: checkCase,
 })
